@@ -6,13 +6,16 @@
 EXTENDS Known_Codec, TraceIO
 
 VARIABLES l, subj, kf,
-          mech   \* what TLC derived from the real tables of the current run (deviation guards use it):
-                 \*   starved: a present symbol had 0 slots in the last frequency table
+          mech   \* what TLC derived from the real tables / events of the current run (deviation guards use it):
+                 \*   slots:   the symbols that own slots in the last frequency table of the coder
+                 \*   starved: the symbols of that table that are present in its counts but own 0 slots
+                 \*   oneslot: the symbols of that table that own exactly one slot
+                 \*   px:      blob id -> byte values occurring in the payload (logged for the FSE family)
                  \*   maxlen:  longest code of the code tables seen, tables: number of tables judged
 
 vars == <<model, enc, l, subj, kf, mech>>
 
-NoMech == [starved |-> FALSE, maxlen |-> 0, tables |-> 0]
+NoMech == [slots |-> {}, starved |-> {}, oneslot |-> {}, px |-> EmptyFn, maxlen |-> 0, tables |-> 0]
 
 TraceInit == CSInit /\ l = 1 /\ subj = [subject |-> "none", fam |-> "none", variant |-> "none", mode |-> "none", klass |-> "none", streams |-> 0]
                     /\ kf = {} /\ mech = NoMech
@@ -25,7 +28,14 @@ TableStep(e) ==
     /\ FN!TableOK(e.freq, e.norm, e.total)
     /\ FN!StartsCumulative(e.start, e.norm)
     /\ UNCHANGED csvars
-    /\ mech' = [mech EXCEPT !.starved = FALSE, !.tables = @ + 1]
+    /\ mech' = [mech EXCEPT !.slots = SlotSyms(e), !.starved = {}, !.oneslot = OneSlotSyms(e), !.tables = @ + 1]
+
+(* the result of the public normaliser EntropyNormalizer::normalize_frequencies_entropy_preserving *)
+(* called directly with a table size of the caller's choice                                       *)
+NormStep(e) ==
+    /\ FN!TableOK(e.freq, e.norm, e.total)
+    /\ UNCHANGED csvars
+    /\ mech' = [mech EXCEPT !.tables = @ + 1]
 
 (* the code table of a real Huffman tree (ctx = -1: the order-0 / baseline tree) *)
 CodesStep(e) ==
@@ -34,15 +44,22 @@ CodesStep(e) ==
     /\ UNCHANGED csvars
     /\ mech' = [mech EXCEPT !.maxlen = Max2(@, PC!MaxLen(e.codes)), !.tables = @ + 1]
 
+(* encode(c, x) -> Ok: the contract action; the payload's byte values are remembered when logged *)
+EncodeStep(e) ==
+    /\ Encode(e.c, e.x, e.b)
+    /\ mech' = IF Has(e, "xs") THEN [mech EXCEPT !.px = Upd(@, e.b, Range(e.xs))] ELSE mech
+
 Step(e) ==
     \/ e.op = "train"  /\ e.ok  /\ Train(e.c, e.d) /\ mech' = NoMech
     \/ e.op = "train"  /\ ~e.ok /\ TrainRefused(e.c, e.d) /\ mech' = mech
     \/ e.op = "table"  /\ TableStep(e)
+    \/ e.op = "norm"   /\ NormStep(e)
     \/ e.op = "codes"  /\ CodesStep(e)
-    \/ e.op = "encode" /\ e.ok  /\ Encode(e.c, e.x, e.b) /\ mech' = mech
+    \/ e.op = "encode" /\ e.ok  /\ EncodeStep(e)
     \/ e.op = "encode" /\ ~e.ok /\ EncodeRefused(e.c, e.x) /\ mech' = mech
     \/ e.op = "decode" /\ Decode(e.c, e.b, e.n, e.ok, e.y) /\ mech' = mech
     \/ e.op = "roundtrips" /\ Roundtrips(e.c, e.items) /\ mech' = mech
+    \/ e.op = "symsteps" /\ StepLaw(e.items) /\ mech' = mech
     (* a panic inside train / encode is a refusal ("whenever encoding succeeds"): nothing was     *)
     (* produced, nothing changes.  A panic inside decode, a crash or a timeout has no action.     *)
     \/ e.op = "panic" /\ e.in \in {"train", "encode"} /\ UNCHANGED csvars /\ mech' = mech
